@@ -271,3 +271,44 @@ pub fn net_domain_ok(sc: &crate::net::NetScenario) -> bool {
             peers.windows(2).all(|w| w[0] != w[1])
         }
 }
+
+/// Transport faults that cost no virtual time, so that oracles which rely on "the server handles a
+/// frame at the instant it is sent" stay exact: frames coalesced into one read, frames cut at
+/// arbitrary offsets (down to one byte at a time), spurious `Pending` on reads and writes, short
+/// write acceptance. Drawn after everything else so the rest of the scenario is unchanged.
+pub fn zero_time_noise(rng: &mut Rng, sc: &mut ConnScenario) {
+    use crate::client::Cut;
+    use crate::pipe::{Gate, WRule};
+    match rng.below(8) {
+        0 | 1 | 2 => return,
+        3 => {}
+        4 | 5 => {
+            for _ in 0..rng.range(1, 8) {
+                sc.client.cuts.push(Cut { at: rng.range(1, 900), gate: Gate::Now, spurious: rng.below(3) as u8 });
+            }
+        }
+        _ => {
+            let start = rng.below(500);
+            for o in start..start + rng.range(10, 200) {
+                sc.client.cuts.push(Cut { at: o.max(1), gate: Gate::Now, spurious: u8::from(rng.chance(1, 8)) });
+            }
+        }
+    }
+    sc.client.coalesce = rng.chance(2, 3);
+    if rng.chance(1, 2) {
+        for _ in 0..rng.range(1, 10) {
+            sc.wplan.push(match rng.below(4) {
+                0 => WRule::Accept { max: 1 },
+                1 => WRule::Accept { max: rng.range(2, 40) as usize },
+                2 => WRule::Spurious,
+                _ => WRule::Accept { max: 100_000 },
+            });
+        }
+    }
+}
+
+/// True when the scenario's transport plan contains nothing that lets virtual time pass.
+pub fn transport_is_zero_time(sc: &ConnScenario) -> bool {
+    use crate::pipe::{Gate, WRule};
+    sc.client.cuts.iter().all(|c| matches!(c.gate, Gate::Now)) && sc.wplan.iter().all(|w| matches!(w, WRule::Accept { .. } | WRule::Spurious))
+}
